@@ -166,6 +166,12 @@ impl Menu {
             }
         }
 
+        // snapshot pushes in flight
+        for (from, to) in c.pushes() {
+            push(&mut out, Event::PushDeliver(from, to), 0);
+            push(&mut out, Event::PushFail(from, to), 1);
+        }
+
         // gated applies
         if self.apply_release {
             for id in &up {
